@@ -1,0 +1,15 @@
+//go:build verif
+
+package objecttree
+
+// VerifBeforeCreateTx, when set, is called with the tree id right before the write transaction that
+// creates a tree storage is opened (CreateStorage and the deferred creation). It exists only under the
+// `verif` build tag: a verification harness uses it as a schedule point to let a concurrent deletion land
+// between the callers' tombstone check and the storage-creating transaction.
+var VerifBeforeCreateTx func(treeId string)
+
+func verifBeforeCreateTx(treeId string) {
+	if f := VerifBeforeCreateTx; f != nil {
+		f(treeId)
+	}
+}
